@@ -410,9 +410,10 @@ static int fdiff(const flds_t *A, const flds_t *B, const char *kind, const char 
 /* ------------------------------------------------------------------------------------------------ states */
 static cm_model_t M; static int quiet;
 static int bus_hook(int node, const rc_msg_t *m) { (void) node; (void) m; return quiet; }     /* after start-up the bus answers nothing by itself */
+static int up_async;      /* 1: only queue the message (c17.sched: the receiver processes the batch concurrently with the getter) */
 static void up(int board, uint8_t type, const uint8_t *d, int n) {
 	if (!cm_board_connected(&M, board)) return;
-	sb_send(M.b[board].sbnode, type, d, n); vs_point(); hx_quiesce();
+	sb_send(M.b[board].sbnode, type, d, n); if (up_async) return; vs_point(); hx_quiesce();
 }
 #define UP(b, t, ...) do { const uint8_t _d[] = {__VA_ARGS__}; up(b, t, _d, (int) sizeof _d); } while (0)
 enum { B_MASTER, B_OC1, B_LC1, B_BOOSTER2 };
@@ -465,8 +466,9 @@ static void apply_set(int k) {
 	settle(); CX.op = "harness";
 }
 /* child set-up: library started (under the given poison in the plain build) and brought to the state */
+static const vs_dev_t *g_devs; static int g_nd, g_trace;
 static void begin(int state, int presence, int start_poison) {
-	hx_child_begin(NULL, 0, 0, NULL, 0, 1000000ull * 5000000ull);
+	hx_child_begin(g_devs, g_nd, g_trace, NULL, 0, 1000000ull * 5000000ull);
 	san_fatal_cb = on_san_fatal; san_mark = san_nevents();
 #ifdef VARIANT_PLAIN
 	{ static const int sigs[] = {SIGSEGV, SIGBUS, SIGABRT, SIGFPE, SIGILL}; for (int i = 0; i < 5; i++) signal(sigs[i], on_signal); }
@@ -674,7 +676,50 @@ static size_t case_gen(long idx, uint8_t *payload, char *human, size_t hn) {
 		         c->phase == PH_FREE ? (c->byte == 0x5A ? "(stack 5a)" : "(stack a5)") : "", GT[c->getter].name, args[c->arg].cls, args[c->arg].label); }
 	return 6;
 }
-void c17_register(void) { harness_register("c17.case", case_child); }
+
+/* ------------------------------------------------------------------------------------------------ c17.sched (E1)
+ * Every (getter, known argument) in state S1 (trains on the track, reported accessories, boosters, ...) on an application
+ * thread — call, read every field of the result, free it — while the receiver thread processes a batch of feedback messages
+ * that changes everything the getters read (the train leaves its segment and appears elsewhere, segments become free,
+ * accessories / peripherals / boosters / command stations change).  Every schedule with <= 1 (thorough 2) preemptions.
+ * A result assembled from two different moments of the state (a count taken before and a list filled after an update) has
+ * slots nobody wrote: under ASan the free of such a slot or the read of a freed string is reported, in the plain build the
+ * heap is perturbed so that an unwritten pointer is 0x5a5a... and reading the result crashes. */
+static void queue_change_batch(void) {
+	/* the collections the getters copy SHRINK: the train leaves the track, the segment's address list becomes empty, a
+	 * board (with its accessories and peripherals) is lost; scalar state changes value */
+	up_async = 1;
+	UP(B_MASTER, MSG_BM_ADDRESS, 0); UP(B_MASTER, MSG_BM_FREE, 0); UP(B_MASTER, MSG_BM_CURRENT, 1, 0xFE); UP(B_MASTER, MSG_BM_CONFIDENCE, 0, 1, 0);
+	UP(B_OC1, MSG_ACCESSORY_STATE, 2, 1, 2, 0x00, 0); UP(B_LC1, MSG_LC_STAT, 0x23, 0x01, 0x01);
+	UP(B_MASTER, MSG_CS_STATE, 0x00); UP(B_MASTER, MSG_BOOST_STAT, 0x01); UP(B_MASTER, MSG_CS_DRIVE_MANUAL, 0x23, 0x01, 3, 0x03, 0x85, 0x01, 0, 0, 0);
+	UP(B_MASTER, MSG_CS_ACCESSORY_MANUAL, 0x22, 0x11, 0x20);
+	if (cm_board_connected(&M, B_LC1)) { uint8_t d[9]; d[0] = ++SB.n[0].tab_version; d[1] = M.b[B_LC1].local; memcpy(d + 2, M.b[B_LC1].uid, 7); SB.n[M.b[B_LC1].sbnode].present = 0; sb_send(0, MSG_NODE_LOST, d, 9); }
+	up_async = 0;
+}
+static const getter_t *sg; static const arg_t *sa; static flds_t SF;
+static void *sched_getter(void *arg) { (void) arg; static res_t r; memset(&r, 0x5A, sizeof r); CX.op = sg->name; n_calls++; do_call(sg, sa, &r); CX.op = "harness(serialise)"; ser(sg, &r, &SF); free_res(sg, &r); CX.op = "harness"; return NULL; }
+static void sched_child(const void *job, size_t n) {
+	static vs_dev_t devs[VS_MAXDEV]; int nd; size_t pl; const uint8_t *p = job_parse(job, n, devs, &nd, &pl);
+	int gi = p[0], ai = p[1]; static arg_t args[MAXARGS]; const getter_t *g = &GT[gi]; int na = build_args(g, args); if (ai >= na) res_infra("bad argument index");
+	memset(&CX, 0, sizeof CX); CX.g = g; CX.a = &args[ai]; CX.state = 1; CX.phase = PH_FREE; CX.op = "harness";
+	g_devs = devs; g_nd = nd; g_trace = 1;
+	begin(1, 7, 0);
+#ifdef VARIANT_PLAIN
+	mallopt(M_PERTURB, 0x5A);
+#endif
+	sg = g; sa = &args[ai];
+	queue_change_batch();
+	vs_window(1);
+	int t = vs_spawn(sched_getter, NULL); vs_join_tid(t); hx_quiesce();
+	vs_window(0);
+	drain_san("sanitizer-in-getter-under-concurrent-updates", "call");
+	emit_outcome(&SF);
+	hx_emit_ledger_violations("C17");
+	hx_emit_trace();
+	res_printf("C getter_calls %ld\nC results_freed %ld\nC cases_sched 1\n", n_calls, n_frees);
+	res_finish();
+}
+void c17_register(void) { harness_register("c17.case", case_child); harness_register("c17.sched", sched_child); }
 int c17_run(const char *tier) {
 	int thorough = !strcmp(tier, "thorough");
 	static const uint8_t PRES[] = {7, 5, 6, 3}; int npres = thorough ? 4 : 1;
@@ -696,8 +741,17 @@ int c17_run(const char *tier) {
 	}
 	ex_spec_t e = { .harness = "c17.case", .ncases = NCASES, .gen = case_gen, .label = "c17" };
 	ex_map(&e);
-	rep_count("states", e.distinct_outcomes); rep_count("transitions", rep_get("getter_calls")); rep_count("executions", e.done);
-	rep_flag("exhaustive", e.exhaustive);
+	long sch = 0, sch_pairs = 0; int sch_ex = 1;
+	{ const char *variant = getenv("VERIF_VARIANT"); int defv = variant && (!strcmp(variant, "autop") || !strcmp(variant, "autoz"));
+	  for (int g = 0; g < NGT && !defv; g++) { int na = build_args(&GT[g], args);
+		for (int a = 0; a < na; a++) { if (strcmp(args[a].cls, "known") && strcmp(args[a].cls, "none")) continue;
+			if (rep_elapsed() > rep_deadline_s) { sch_ex = 0; break; }
+			uint8_t sp[2] = {(uint8_t) g, (uint8_t) a}; char label[160]; snprintf(label, sizeof label, "c17.sched %s(%s) || receiver", GT[g].name, args[a].label);
+			e1_spec_t es = { .harness = "c17.sched", .param = sp, .nparam = 2, .bound = thorough ? 2 : 1, .label = strdup(label) };
+			e1_explore(&es); for (int k = 0; k < 8; k++) sch += es.schedules_by_cost[k]; sch_pairs++; if (!es.exhaustive) sch_ex = 0; } }
+	  if (!defv) rep_note("c17.sched: %ld (getter, known argument) pairs against a receiver batch that changes all tracked state, %ld schedules, preemption bound %d", sch_pairs, sch, thorough ? 2 : 1); }
+	rep_count("states", e.distinct_outcomes); rep_count("transitions", rep_get("getter_calls")); rep_count("executions", e.done + sch);
+	rep_flag("exhaustive", e.exhaustive && sch_ex);
 	rep_note("%d getters x %ld (getter, argument) pairs x 3 states x %d presence variant(s); cases: deep-copy %ld, free-safety %ld, poison-differential %ld (sibling comparisons %ld), snapshot %ld; getter calls %ld, results freed %ld, fields compared %ld, snapshot fields compared %ld over %ld entities",
 	         NGT, pairs, npres, rep_get("cases_deep-copy"), rep_get("cases_free-safety"), rep_get("cases_poison-differential"), rep_get("sibling_comparisons"), rep_get("cases_snapshot-vs-getters"),
 	         rep_get("getter_calls"), rep_get("results_freed"), rep_get("fields_compared"), rep_get("snapshot_fields_compared"), rep_get("snapshot_entities"));
